@@ -604,6 +604,7 @@ func (t *Term) collect(syms map[string]Sort, fns map[string]bool, bound map[stri
 
 // Query renders an SMT-LIB script: facts ∧ ¬goal (goal == nil: satisfiability of the facts = cover query).
 func Query(facts []*Term, goal *Term, models bool) string {
+	facts = preInstantiate(facts, goal)
 	syms := map[string]Sort{}
 	fns := map[string]bool{}
 	for _, f := range facts {
@@ -667,4 +668,105 @@ func Query(facts []*Term, goal *Term, models bool) string {
 		b.WriteString("(get-model)\n")
 	}
 	return b.String()
+}
+
+// ---------------------------------------------------------------------------------------------
+// Ground pre-instantiation of bounded quantifiers over slice indices. E-matching loses patterns of the shape
+// (select a (+ off k)) once the solver normalises the arithmetic, so for every universally quantified fact with a
+// single bound variable k that occurs as (+ A k), the instances k := t for all ground index terms (+ A t) of the
+// query are added as facts. Sound: instances of a fact are consequences of it.
+func preInstantiate(facts []*Term, goal *Term) []*Term {
+	type pat struct{ q, a *Term }
+	var pats []pat
+	var findPats func(q *Term, t *Term, k string)
+	findPats = func(q, t *Term, k string) {
+		if t.Op == "+" && len(t.Args) == 2 {
+			if t.Args[1].Op == opSym && t.Args[1].Name == k && !mentionsSym(t.Args[0], k) {
+				pats = append(pats, pat{q, t.Args[0]})
+			} else if t.Args[0].Op == opSym && t.Args[0].Name == k && !mentionsSym(t.Args[1], k) {
+				pats = append(pats, pat{q, t.Args[1]})
+			}
+		}
+		for _, a := range t.Args {
+			findPats(q, a, k)
+		}
+	}
+	var quants []*Term
+	var collectQ func(t *Term, positive bool)
+	collectQ = func(t *Term, positive bool) {
+		switch t.Op {
+		case "forall":
+			if positive && len(t.Bound) == 1 {
+				quants = append(quants, t)
+			}
+		case "and":
+			for _, a := range t.Args {
+				collectQ(a, positive)
+			}
+		}
+	}
+	for _, f := range facts {
+		collectQ(f, true)
+	}
+	if len(quants) == 0 {
+		return facts
+	}
+	for _, q := range quants {
+		findPats(q, q.Args[0], q.Bound[0].Name)
+	}
+	if len(pats) == 0 {
+		return facts
+	}
+	// ground candidates: (+ A t) anywhere outside the quantifier bodies
+	type cand struct{ a, t *Term }
+	var cands []cand
+	var walk func(t *Term)
+	walk = func(t *Term) {
+		if t.Op == "forall" || t.Op == "exists" {
+			return
+		}
+		if t.Op == "+" && len(t.Args) == 2 {
+			cands = append(cands, cand{t.Args[0], t.Args[1]}, cand{t.Args[1], t.Args[0]})
+		}
+		for _, a := range t.Args {
+			walk(a)
+		}
+	}
+	for _, f := range facts {
+		walk(f)
+	}
+	if goal != nil {
+		walk(goal)
+	}
+	out := append([]*Term(nil), facts...)
+	seen := map[string]bool{}
+	n := 0
+	for _, p := range pats {
+		ak := p.a.Key()
+		for _, c := range cands {
+			if c.a.Key() != ak || n > 200 {
+				continue
+			}
+			key := p.q.Key() + "|" + c.t.Key()
+			if seen[key] {
+				continue
+			}
+			seen[key] = true
+			n++
+			out = append(out, p.q.Args[0].Subst(map[string]*Term{p.q.Bound[0].Name: c.t}))
+		}
+	}
+	return out
+}
+
+func mentionsSym(t *Term, name string) bool {
+	if t.Op == opSym && t.Name == name {
+		return true
+	}
+	for _, a := range t.Args {
+		if mentionsSym(a, name) {
+			return true
+		}
+	}
+	return false
 }
